@@ -357,7 +357,7 @@ extern "C" void h_cache_invariant() {
   std::string s = a.getString(); check_inv(a, "getString"); check_short(a, "after getString");
 #endif
 #ifdef CANARY
-  __CPROVER_assert(a.h[0] != 5, "canary");
+  __CPROVER_assert(b.h[0] != 5, "canary");      /* b is untouched by clear(): must be falsifiable */
 #endif
 }
 
